@@ -25,7 +25,7 @@ func init() {
 		"update-existing-equal", "update-moves-up", "update-moves-down", "init-duplicate-keys",
 		"crash-pop-empty", "crash-peek-empty", "pop-among-ties", "heap-init-slice",
 	}
-	ExpectedProbes["heap/C15"] = []string{"iterator-before-any-other-operation", 
+	ExpectedProbes["heap/C15"] = []string{"iterator-before-any-other-operation", "second-container-of-the-same-type", 
 		"update-reorders-under-iter", "push-under-iter", "pop-under-iter", "remove-under-iter",
 		"grow-shrink-under-iter", "iter-panicked", "iter-called-again-after-panic", "iter-exhausted-clean", "iter-gen-wrap",
 	}
@@ -100,6 +100,12 @@ type hpW struct {
 	n     int
 
 	h      xheap.Heap[hpItem]
+	// a second container of the same type in the same process (C15): what it does - reallocating
+	// included - is none of the first one's iterators' business
+	otherH    xheap.Heap[hpItem]
+	otherQ    xheap.PriorityQueue[int, int]
+	otherMade bool
+	otherN    int
 	held   map[int]int // Heap: id -> priority
 	nextID int
 	maxLen int
@@ -1121,8 +1127,56 @@ const (
 	hpPhIterate // C15 only
 )
 
+// otherChurn works on the second container: pushes, pops, Grow and Shrink.
+func (w *hpW) otherChurn() {
+	r := w.r
+	if !w.otherMade {
+		w.otherMade = true
+		r.Probe("second-container-of-the-same-type")
+		if w.queue {
+			w.otherQ = xheap.NewPriorityQueue[int, int](func(a, b int) bool { return a < b }, nil)
+		} else {
+			w.otherH = xheap.New[hpItem](func(a, b hpItem) bool { return a.p < b.p }, nil)
+		}
+	}
+	k := 1 + r.Choose(40, "other-k")
+	switch r.Choose(4, "other-op") {
+	case 0:
+		for i := 0; i < k%7+1; i++ {
+			w.otherN++
+			if w.queue {
+				w.otherQ.Update(-1000-w.otherN, -1000-w.otherN) // keys and priorities the first one never holds
+			} else {
+				w.otherH.Push(hpItem{id: -1000 - w.otherN, p: -1000 - w.otherN})
+			}
+		}
+	case 1:
+		if w.queue {
+			if w.otherQ.Len() > 0 {
+				w.otherQ.Pop()
+			}
+		} else if w.otherH.Len() > 0 {
+			w.otherH.Pop()
+		}
+	case 2:
+		if w.queue {
+			w.otherQ.Grow(k)
+		} else {
+			w.otherH.Grow(k)
+		}
+	default:
+		if !w.queue {
+			w.otherH.Shrink(k % 5)
+		}
+	}
+}
+
 func (w *hpW) step(phase, k int) {
 	r := w.r
+	if w.c15 && r.Choose(10, "other-container") == 9 {
+		w.otherChurn()
+		return
+	}
 	if w.c15 {
 		if phase == hpPhIterate {
 			if r.Choose(8, "iter-phase") != 7 {
